@@ -5,10 +5,10 @@ that a new version of harness/props/Cxx.py can be dropped in without losing them
 """
 EXTRA_TARGETS = {
     'C01': ['XdocModel.Proofs.Compose'],
-    'C07': ['XdocModel.Proofs.GoogleMargin', 'XdocModel.Proofs.PackageNodup'],
+    'C07': ['XdocModel.Proofs.GoogleMargin', 'XdocModel.Proofs.PackageNodup', 'XdocModel.Proofs.PackageOnce'],
     'C04': ['XdocModel.Proofs.Compose2'],
     'C08': ['XdocModel.Proofs.Compose', 'XdocModel.Proofs.Compose2'],
-    'C10': ['XdocModel.Proofs.Compose2', 'XdocModel.Proofs.PackageNodup'],
+    'C10': ['XdocModel.Proofs.Compose2', 'XdocModel.Proofs.PackageNodup', 'XdocModel.Proofs.PackageOnce'],
     'C11': ['XdocModel.Proofs.Compose2'],
     'C13': ['XdocModel.Proofs.C13Labels'],
     'C14': ['XdocModel.Proofs.C14Total'],
@@ -45,8 +45,9 @@ EXTRA_THEOREMS = {
 EXTRA_THEOREMS['C07'] = [('Xdoc.Google.dedentLines_margin', 'full'), ('Xdoc.Google.prepLines_margin', 'full'),
                          ('Xdoc.Google.prepLines_margin_old_padding_fails', 'witness'), ('Xdoc.Google.prepLines_margin_tab_witness', 'witness'),
                          ('Xdoc.Static.packageModpaths_nodup', 'full'), ('Xdoc.Static.walkSubs_nodup', 'full'),
-                         ('Xdoc.Static.visit_variant_yields_root_twice', 'witness')]
-EXTRA_THEOREMS['C10'] += [('Xdoc.Static.packageModpaths_nodup', 'full'), ('Xdoc.Static.visit_variant_yields_root_twice', 'witness')]
+                         ('Xdoc.Static.visit_variant_yields_root_twice', 'witness'), ('Xdoc.C07.package_callnames_nodup', 'full')]
+EXTRA_THEOREMS['C10'] += [('Xdoc.Static.packageModpaths_nodup', 'full'), ('Xdoc.Static.visit_variant_yields_root_twice', 'witness'),
+                          ('Xdoc.C07.package_callnames_nodup', 'full')]
 EXTRA_THEOREMS['C08'] += [('Xdoc.Compose2.parse_then_file_line_google', 'full'), ('Xdoc.Compose2.google_block_tiled', 'full'),
                           ('Xdoc.Compose2.parse_then_part_on_file_line', 'full'),
                           ('Xdoc.Compose2.google_lineno_counts_splitlines_witness', 'witness')]
@@ -82,7 +83,8 @@ EXTRA_TEXT = {
             "and tabs, the lines the Google block splitter works on are the first line plus the other lines without the margin; with the padding the code used before the repair the "
             "statement is false for a tab margin (`prepLines_margin_old_padding_fails`, kernel-evaluated; the defect was found by the tab-indented variant of the module generator). "
             "ADDED (Proofs/PackageNodup.lean): `packageModpaths_nodup` — `package_modpaths` lists every path of a package tree at most ONCE, for every tree whose listings do not repeat a "
-            "name, every depth and option setting (the membership theorems say which paths; this one says once); the walk of round-4 seed C10-4B is evaluated in the kernel as a violation."),
+            "name, every depth and option setting (the membership theorems say which paths; this one says once); the walk of round-4 seed C10-4B is evaluated in the kernel as a violation; `package_callnames_nodup` (Proofs/PackageOnce.lean) composes it with `identifiers_nodup`: a "
+            "(module path, callname) pair is collected once over the whole package, for every tree and every module contents."),
     'C04': (" ADDED (Proofs/Compose2.lean, with C11): `default_options_run_like_leading_block` — a run with default options equals, part for part (indices shifted "
             "by one), the run of the same doctest with those options written as a leading block directive."),
     'C10': (" ADDED (Proofs/PackageNodup.lean): `packageModpaths_nodup` — for a PACKAGE target the module list the runner iterates over has no duplicate, for every directory tree "
